@@ -85,6 +85,11 @@ def _gen_cfg(rng, prop):
     }
     if not cfg["shallow"] and cfg["cache_odb"] == "dest":
         cfg["cache_odb"] = rng.choice([None, "src"])
+    if prop == "C11":
+        # a second round through the SAME store handles after another client delivered part of what
+        # is still missing (the handles hold memoised listings of the store's fan-out directories)
+        cfg["second_round"] = rng.random() < 0.4
+        cfg["ext_seed"] = rng.randrange(10**6)
     return cfg
 
 
@@ -563,6 +568,27 @@ def _one(sc, ctx, m, idx, fail, req, req_star, src0, dest0, new):
                 or any(o in D0 for o in req_star)
                 or (cfg.get("verify") and sc.get("corrupt"))
             )
+    if prop == "C11" and cfg.get("second_round") and res is not None and not cfg.get("via_push"):
+        er = random.Random(cfg.get("ext_seed", 0))
+        absent = sorted(o for o in req_star if o not in D1 and o in m.bytes)
+        have = set(D1)
+        # the other client follows the same protocol: files first, a directory object only once all
+        # the files it lists are there
+        for o in [x for x in absent if x not in m.children] + [x for x in absent if x in m.children]:
+            if er.random() < 0.5 and all(c in have for c in m.children.get(o, ())):
+                run.w.raw_add(run.dname, cfg["dest_kind"], o, m.bytes[o])
+                have.add(o)
+                ctx.probe("object_delivered_by_another_client_between_rounds")
+        D1x = run.listing_dest()
+        n_placed = len(run.placed)
+        try:
+            res2 = run.transfer(req)
+        except Exception as exc:  # noqa: BLE001
+            ctx.violate("transfer-raised", "second-round:" + type(exc).__name__, repr(exc))
+            res2 = None
+        if res2 is not None:
+            _oracle_c11(ctx, sc, m, req_star, S1, run.listing_src(), D1x, run.listing_dest(),
+                        {h.value for h in res2.transferred}, {h.value for h in res2.failed}, run.placed[n_placed:], ["(second round)"])
     # (iii) clean retry with the same arguments completes the destination
     if prop == "C04":
         for lab in list(sc.get("src_missing", [])) + [l for l in fail if sc["fault_kinds"][l]["stage"] == "src_gone"]:
